@@ -59,7 +59,7 @@ def main():
     only = sys.argv[3:] or None
     jobs = []
     for pid in sorted(os.listdir(SRC)):
-        for n in (1, 2, 3, 4):
+        for n in (1, 2, 3, 4, 5, 6):
             if n <= 2 or os.path.exists(os.path.join(SRC, pid, f"patch{n}.diff")):
                 jobs.append((pid, n))
     jobs = [j for i, j in enumerate(jobs) if i % nw == w]
